@@ -14,6 +14,10 @@ CLAIMS = {
    technique="typestate extraction: abstract path exploration of the thread handlers over the finite (thread_state x event) domain, compared with the documented FSM; error-propagation analysis to main",
    text="Exhaustive over the abstract domain: pre_thread() is explored (thread.c inlined, infrastructure calls non-deterministic) for all 256 value bytes x 6 thread states; accept/reject and the post-state of every accepting path are compared with the documented state machine; thread_set_state's published view (is_running, is_active, state and TID channels) is evaluated for all 6 states; model_ovni_finish is evaluated on all 1- and 2-thread state combinations and its failure is followed call site by call site to main's exit status. Not decided: that the timeline shows the state at every instant (depends on patch-bay propagation, see C06).",
    design_ref="§4 C04"),
+ "C05": dict(
+   technique="abstract evaluation of cpu_update on every thread list of length 0..3 in every state (physical and virtual CPU); event-trace pairing analysis (state/CPU change followed by a recount of each affected CPU) over the accepting paths of the life-cycle and affinity handlers",
+   text="cpu_update's CFG is evaluated on all 518 configurations (0-3 threads x 6 states x physical/virtual): it must reject exactly when a physical CPU has more than one running thread and otherwise feed NRUN/TID/PID/THRUN/THACT from the unique running / active thread or null; cpu_add/remove/migrate_thread must change the list and then recount; on every accepting path of the six life-cycle handlers and both affinity handlers every CPU whose occupants changed is recounted after the change. Not decided: lists longer than three and arbitrary interleavings over many CPUs (list manipulation is data-dependent).",
+   design_ref="§4 C05"),
  "C07": dict(
    technique="typestate extraction: abstract path exploration of body.c over all consistent (state, flags, stack, stack-top) combinations vs. the documented body FSM; who-may-write effect analysis; argument-flow evaluation of flag plumbing, event mapping and channel sets in both task models",
    text="body_execute/pause/resume/end are explored (utlist macros included) on every consistent abstract state - 4 body states x PAUSE/RESURRECT flags x {no stack, this stack, another stack} x {empty, self alone, self over another, other running relaxed/strict, other paused} - and accept/reject plus the post-state (state, stack binding, new top, iteration) must equal the documented machine; struct body is written only by body.c's five life-cycle functions; create_body's flag mapping is evaluated on all 16 task-flag sets; nOS-V/Nanos6 creation flags, the nOS-V body-id rule, the x/e/p/r -> task_* -> body_* mapping and the running/stopped/switch channel sets and their source fields are evaluated from the code. Not decided: hash-table lookups (task_find/body_find) and list shapes deeper than two bodies.",
